@@ -80,6 +80,12 @@ def build_node(nspec: dict):
         x = _mk_input(nspec.get("input", "const"))
         outs = inline(P._passthrough_model("i64", (2,)))(x=x)
         return next(iter(outs.values()))._op
+    if kind == "inline_noinput":  # a model without graph inputs, inlined with no arguments
+        from harness import lib_vpprog as P
+        from spox import inline
+
+        outs = inline(P._constant_model((1, 2)))()
+        return next(iter(outs.values()))._op
     if kind == "real":
         name = nspec["op"]
         a = L.const_var("i64", (2,), 7)
@@ -327,6 +333,14 @@ def gen_cases(rng, thorough: bool) -> list:
                   {"names": ["x"], "vals": [{"r": "ragged"}]}, {"names": ["x"], "vals": [{"r": "scalar", "dt": "i64", "pid": 1}]}):
             for inp in ("const", "arg", "init"):
                 add(sel, {"kind": "inline0", "input": inp}, b)
+    # (7c) inlined model WITHOUT graph inputs (no skip condition can apply): every backend setting incl. NONE
+    y2 = A("i64", [2], 14)
+    for sel in sels + ["none"]:
+        for b in ({"names": ["y"], "vals": [y2]}, {"names": ["y"], "vals": [A("f64", [2], 3)]}, {"names": ["q"], "vals": [y2]},
+                  {"names": ["y"], "vals": []}, {"names": ["y"], "vals": [{"r": "list", "xs": [y2, y2]}]},
+                  {"raise": {"isExc": True, "id": 1}}, {"raise": {"isExc": True, "id": 4}}, {"names": ["y"], "noniterable": True}):
+            for at in ("init", "run"):
+                add(sel, {"kind": "inline_noinput"}, b, at)
     # (8) seeded random: random declared types x random (possibly nested) results x names
     n_rand = 1500 if thorough else 250
     for _ in range(n_rand):
